@@ -62,7 +62,10 @@ func (p *players) Len() int {
 // Range loops through the player list.
 func (p *players) Range(fn func(p Player) bool) {
 	p.mu.RLock()
-	list := p.list
+	list := make([]*connectedPlayer, 0, len(p.list))
+	for _, player := range p.list {
+		list = append(list, player)
+	}
 	p.mu.RUnlock()
 	for _, player := range list {
 		if !fn(player) {
